@@ -14,4 +14,4 @@ done
 tag=$(python3 -c "import hashlib,os;print(hashlib.sha1(os.path.realpath('$M').encode()).hexdigest()[:8])")
 rm -rf $M /tmp/main_mut_ev_$$ /verif/.cache/*_$tag
 # regenerate the tables from the real tree again
-python3 tools/extract.py --repo /repo --family main >/dev/null
+python3 tools/extract.py --repo /repo --family all >/dev/null
